@@ -38,6 +38,30 @@ def V(v): return (num(v), 'v%d' % v)
 def mk(mn, *ops, **kw):
     return Case(mn, [o[0] for o in ops], [o[1] for o in ops], **kw)
 
+def mk_sym(mn, *ops, **kw):
+    """the same instruction with every register written through a `.def` alias and every value
+    through an `.equ` symbol (or, for odd operand positions, a compound expression)"""
+    pre, texts, toks = [], [], []
+    for j, (txt, tok) in enumerate(ops):
+        if tok.startswith('r'):
+            name = 'Al%d' % j
+            pre.append('.def %s = %s' % (name, txt))
+            texts.append(name.lower() if j % 2 else name)
+        elif tok.startswith('v'):
+            if j % 2 == 0:
+                name = 'Kc%d' % j
+                pre.append('.equ %s = %s' % (name, txt))
+                texts.append(name.upper() if j else name)
+            else:
+                texts.append('(%s + 7) - 7' % txt if not txt.startswith('-') else '0 %s' % txt.replace('-', '- '))
+        else:
+            texts.append(txt)
+        toks.append(tok)
+    c = Case(mn, texts, toks, **kw)
+    head, line = (c.src.split('\n', 1) if c.dev else ('', c.src))
+    c.src = (head + '\n' if head else '') + '\n'.join(pre + [line])
+    return c
+
 def legal_cases(tier):
     """every legal operand tuple of every one-word form (exhaustive), lds/sts and jmp/call
     stratified (quick) / denser (thorough)"""
